@@ -1,7 +1,8 @@
 import DepLogic.Proofs.MarkerEngineStep
 import DepLogic.Properties.C19
 import DepLogic.Proofs.SpecTheorems
-import DepLogic.Proofs.CutMap
+import DepLogic.Proofs.TextInv
+import DepLogic.Proofs.PyNorm
 /-
   The single-marker layer: which atoms are "good" in an environment, and that `&`/`|` between
   good single markers is sound (`SingleSound`).  String variables: proved outright from C19.
@@ -40,22 +41,47 @@ def _root_.DepLogic.Atom.WF (a : Atom) : Prop := getSpecifier a.name a.op a.valu
 /-- the atom evaluates as its specifier view says -/
 def _root_.DepLogic.Atom.Coherent (env : Env) (a : Atom) : Prop := sem env (.expr a) = holds env a.name a.spec
 
-/-- a version that is not a post-release -/
-def NoPost (v : Ver) : Prop := v.post = none
-
-/-- canonical, and no bound is a post-release.  (With a post-release upper bound the `~=` rendering
-    of `RangeSpecifier._simplified_form` drops the suffix — known finding D4a — and `from_specifier`
-    would then build an atom that means something else; see C06.NoD4a.) -/
+/-- canonical, cached clause texts right, and no bound is a post-release (`C06.Nice`).  (With a
+    post-release upper bound the `~=` rendering of `RangeSpecifier._simplified_form` drops the suffix
+    — known finding D4a — and `from_specifier` would then build an atom that means something else.) -/
 def _root_.DepLogic.ASpec.Canon : ASpec → Prop
-  | .ver s => Spec.Canon s ∧ Spec.BoundsIn NoPost s
+  | .ver s => C06.Nice s
   | .gen _ => True
+
+/-- the version the environment gives to `name`, if it is one -/
+def envVer (env : Env) (name : String) : Option Ver :=
+  match env name with
+  | some (.str t) => SpecParse.parseVer (trimS t)
+  | _ => none
+
+/-- a specifier on `python_version` that does not tell `X.Y` from `X.Y.Z`: read on the environment's
+    python_full_version it admits what it admits on its python_version.  (True of views with bounds
+    `X.Y`, `X.Y.0`, …; false of `>= 3.8.1`.) -/
+def PvSem (env : Env) : ASpec → Prop
+  | .ver sp => ∀ pv f, envVer env "python_version" = some pv → envVer env "python_full_version" = some f →
+      (sp.mem pv ↔ sp.mem f)
+  | .gen _ => True
+
+/-- both views are of the kind the variable has -/
+def SameKind (n : String) (s : ASpec) : Prop :=
+  match s with
+  | .ver _ => versionLikeNames.contains n = true
+  | .gen _ => n ≠ "extra" ∧ setNames.contains n = false
+
+/-- a `python_version` atom read as a constraint on `python_full_version` — what
+    `_normalize_python_version_specifier` computes — means what the atom means.  (False of operands
+    outside the well-defined class, e.g. `python_version >= "3.8.1"`.) -/
+def NormGood (env : Env) (a : Atom) : Prop :=
+  a.name = "python_version" → ∀ ns, normalizePythonVersion a = some ns →
+    holds env "python_full_version" ns = sem env (.expr a) ∧ ns.Canon ∧ SameKind "python_full_version" ns
 
 /-- atoms of the well-defined classes, in an environment where they behave -/
 def GoodAtom (env : Env) (a : Atom) : Prop :=
   a.WF ∧
   (if a.name = "extra" then a.op = .eq ∨ a.op = .ne
    else if setNames.contains a.name then a.reversed = true ∧ (a.op = .in_ ∨ a.op = .notIn)
-   else if versionLikeNames.contains a.name then a.Coherent env ∧ a.spec.Canon
+   else if versionLikeNames.contains a.name then
+     a.Coherent env ∧ a.spec.Canon ∧ NormGood env a ∧ (a.name = "python_version" → PvSem env a.spec)
    else StrName a.name)
 
 def Good (env : Env) : M → Prop
@@ -147,12 +173,6 @@ theorem holds_ver_mem (env : Env) (name : String) (s : Spec Ver) :
          | _ => false) := by
   cases s <;> rfl
 
-/-- the version the environment gives to `name`, if it is one -/
-def envVer (env : Env) (name : String) : Option Ver :=
-  match env name with
-  | some (.str t) => SpecParse.parseVer (trimS t)
-  | _ => none
-
 /-- `holds` of a version specifier, uniformly: the membership of the environment's version when
     there is one; without one only the universal specifier holds -/
 theorem holds_ver (env : Env) (name : String) (s : Spec Ver) :
@@ -172,14 +192,13 @@ theorem holds_ver (env : Env) (name : String) (s : Spec Ver) :
 structure EnvTotal (env : Env) : Prop where
   str : ∀ n, n ≠ "extra" → setNames.contains n = false → ∃ t, env n = some (.str t)
   ver : ∀ n, versionLikeNames.contains n = true → (envVer env n).isSome = true
+  /-- interpreter and kernel versions are final releases (`3.12.1`, not `3.13.0rc1`) -/
+  verFinal : ∀ n v, envVer env n = some v → v.isFinal = true
+  /-- `python_version` is `major.minor` of `python_full_version` -/
+  py : ∀ f, envVer env "python_full_version" = some f →
+    ∃ X Y zs, f = fin (X :: Y :: zs) ∧ envVer env "python_version" = some (fin [X, Y])
   extra : (env "extra").isSome = true
   sets : ∀ n, setNames.contains n = true → ∃ xs, env n = some (.set xs)
-
-/-- both views are of the kind the variable has -/
-def SameKind (n : String) (s : ASpec) : Prop :=
-  match s with
-  | .ver _ => versionLikeNames.contains n = true
-  | .gen _ => n ≠ "extra" ∧ setNames.contains n = false
 
 theorem holds_gen (env : Env) (he : EnvTotal env) (n : String) (h1 : n ≠ "extra") (h2 : setNames.contains n = false)
     (g : GSpec) : ∃ t, env n = some (.str t) ∧ holds env n (.gen g) = g.contains t := by
@@ -233,7 +252,7 @@ theorem aspecOr_holds (env : Env) (he : EnvTotal env) (n : String) (s1 s2 r : AS
       rw [ht] at ht'; cases ht'
       rw [holds_ofGRes env n t ht, ha, hb]
       refine ⟨C19.or_exact' a b gr hgr t, ?_⟩
-      cases gr <;> simp [ASpec.ofGRes, ASpec.Canon, Spec.Canon, Spec.boundsIn_empty, Spec.boundsIn_any]
+      cases gr <;> simp [ASpec.ofGRes, ASpec.Canon, C06.nice_empty, C06.nice_any]
     | ver b => simp [aspecOr] at h
   | ver a =>
     cases s2 with
@@ -241,22 +260,22 @@ theorem aspecOr_holds (env : Env) (he : EnvTotal env) (n : String) (s1 s2 r : AS
     | ver b =>
       simp only [aspecOr, Option.map_eq_some_iff] at h
       obtain ⟨s, hs, rfl⟩ := h
-      obtain ⟨s', hs', hc, hm⟩ := Spec.or_spec a b c1.1 c2.1
+      obtain ⟨s', hs', hc, hm⟩ := Spec.or_spec a b c1.canon c2.canon
       rw [hs] at hs'; cases hs'
       have hv := he.ver n k1
       cases hev : envVer env n with
       | none => simp [hev] at hv
       | some v =>
-        refine ⟨?_, hc, Spec.or_boundsIn NoPost a b s c1.2 c2.2 hs⟩
+        refine ⟨?_, C06.nice_or a b s c1 c2 hs⟩
         simp only [holds_ver, hev]
         rw [Bool.eq_iff_iff]
         simp [hm]
 
 theorem aspecAnd_canon (s1 s2 r : ASpec) (c1 : s1.Canon) (c2 : s2.Canon) (h : aspecAnd s1 s2 = some r) : r.Canon := by
   cases s1 <;> cases s2 <;> simp [aspecAnd] at h
-  · subst h; exact ⟨Spec.and_canon _ _ c1.1 c2.1, Spec.and_boundsIn NoPost _ _ c1.2 c2.2⟩
+  · subst h; exact C06.nice_and _ _ c1 c2
   · obtain ⟨gr, _, rfl⟩ := h
-    cases gr <;> simp [ASpec.ofGRes, ASpec.Canon, Spec.Canon, Spec.boundsIn_empty, Spec.boundsIn_any]
+    cases gr <;> simp [ASpec.ofGRes, ASpec.Canon, C06.nice_empty, C06.nice_any]
 
 theorem ASpec.beq_holds (env : Env) (he : EnvTotal env) (n : String) (r s : ASpec) (k : SameKind n s)
     (h : r.beq s = true) : holds env n r = holds env n s := by
@@ -283,11 +302,15 @@ theorem ASpec.beq_holds (env : Env) (he : EnvTotal env) (n : String) (r s : ASpe
     bounds into a marker that means it -/
 def FromSpecOk (env : Env) : Prop :=
   ∀ name s m, versionLikeNames.contains name = true → ASpec.Canon (.ver s) →
+    (name = "python_version" → PvSem env (.ver s)) →
     fromSpecifier name (.ver s) = some m → GAll (Good env) m ∧ sem env m = holds env name (.ver s)
 
 /-- the python_version / python_full_version merge -/
 def PyMergeOk (env : Env) : Prop :=
-  ∀ a b isAnd m, GoodAtom env a → GoodAtom env b → mergePythonVersion a b isAnd = some m →
+  ∀ a b isAnd m, GoodAtom env a → GoodAtom env b →
+    ((a.name == "python_version" && b.name == "python_full_version") ||
+     (a.name == "python_full_version" && b.name == "python_version")) = true →
+    mergePythonVersion a b isAnd = some m →
     GAll (Good env) m ∧ sem env m = bop isAnd (sem env (.expr a)) (sem env (.expr b))
 
 theorem wf_ver_spec (a : Atom) (hw : a.WF) (hn : versionLikeNames.contains a.name = true) :
@@ -360,7 +383,7 @@ theorem good_ordinary (env : Env) (a : Atom) (ha : GoodAtom env a) (h1 : a.name 
   by_cases hv : versionLikeNames.contains a.name = true
   · simp only [hv, if_true] at hc
     obtain ⟨s, hs⟩ := wf_ver_spec a hw hv
-    exact ⟨hc.1, hc.2, by rw [hs]; exact hv⟩
+    exact ⟨hc.1, hc.2.1, by rw [hs]; exact hv⟩
   · simp only [hv, Bool.false_eq_true, if_false] at hc
     obtain ⟨g, _, hs⟩ := wf_str_spec a hw hc
     exact ⟨str_coherent env a hw hc, by rw [hs]; trivial, by rw [hs]; exact ⟨h1, h2⟩⟩
@@ -368,6 +391,37 @@ theorem good_ordinary (env : Env) (a : Atom) (ha : GoodAtom env a) (h1 : a.name 
 theorem ofGRes_beq_gen (r : GRes) (g : GSpec) (h : (ASpec.ofGRes r).beq (.gen g) = false) : r ≠ .spec g := by
   rintro rfl
   simp [ASpec.ofGRes, ASpec.beq] at h
+
+theorem good_pvsem (env : Env) (a : Atom) (ha : GoodAtom env a) (h1 : a.name ≠ "extra")
+    (h2 : setNames.contains a.name = false) (hv : versionLikeNames.contains a.name = true) :
+    a.name = "python_version" → PvSem env a.spec := by
+  have hc := ha.2
+  simp only [h1, if_false, h2, Bool.false_eq_true, hv, if_true] at hc
+  exact hc.2.2.2
+
+theorem aspec_pvsem (env : Env) (isAnd : Bool) (s1 s2 r : ASpec) (c1 : s1.Canon) (c2 : s2.Canon)
+    (p1 : PvSem env s1) (p2 : PvSem env s2)
+    (hr : (if isAnd then aspecAnd s1 s2 else aspecOr s1 s2) = some r) : PvSem env r := by
+  cases s1 with
+  | gen a => cases s2 <;> cases isAnd <;> simp [aspecAnd, aspecOr] at hr <;>
+      (obtain ⟨gr, _, rfl⟩ := hr; cases gr <;> simp [ASpec.ofGRes, PvSem, Spec.mem])
+  | ver a =>
+    cases s2 with
+    | gen b => cases isAnd <;> simp [aspecAnd, aspecOr] at hr
+    | ver b =>
+      cases isAnd with
+      | true =>
+        simp only [if_true, aspecAnd, Option.some.injEq] at hr
+        subst hr
+        intro pv f hpv hf
+        rw [Spec.and_mem, Spec.and_mem, p1 pv f hpv hf, p2 pv f hpv hf]
+      | false =>
+        simp only [Bool.false_eq_true, if_false, aspecOr, Option.map_eq_some_iff] at hr
+        obtain ⟨s, hs, rfl⟩ := hr
+        obtain ⟨s', hs', _, hm⟩ := Spec.or_spec a b c1.canon c2.canon
+        rw [hs] at hs'; cases hs'
+        intro pv f hpv hf
+        rw [hm, hm, p1 pv f hpv hf, p2 pv f hpv hf]
 
 /-- the branch of `_merge_single_markers` where the specifier views could be combined -/
 theorem merge_some_ok (env : Env) (he : EnvTotal env) (hF : FromSpecOk env) (a b : Atom) (isAnd : Bool)
@@ -411,7 +465,10 @@ theorem merge_some_ok (env : Env) (he : EnvTotal env) (hF : FromSpecOk env) (a b
         cases hsa : a.spec with
         | ver sa =>
           have hvl : versionLikeNames.contains a.name = true := by rw [hsa] at ka; exact ka
-          exact hF a.name s m hvl hsem.2 hm
+          refine hF a.name s m hvl hsem.2 ?_ hm
+          intro hpvn
+          exact aspec_pvsem env isAnd _ _ _ na nb (good_pvsem env a ha h1 h2 hvl hpvn)
+            (good_pvsem env b hb (hn ▸ h1) (hn ▸ h2) (hn ▸ hvl) (hn ▸ hpvn)) hr
         | gen ga =>
           -- a string merge that collapsed to the empty / universal specifier
           have hs : s = .empty ∨ s = .any := by
@@ -535,7 +592,8 @@ theorem mergeSingle_ok (env : Env) (he : EnvTotal env) (hF : FromSpecOk env) (hP
     GAll (Good env) m ∧ sem env m = bop isAnd (sem env (.expr a)) (sem env (.expr b)) := by
   unfold mergeSingle at h
   split at h
-  · exact hP a b isAnd m ha hb h
+  · rename_i hpair
+    exact hP a b isAnd m ha hb hpair h
   · split at h
     · simp at h
     · rename_i hne
@@ -637,7 +695,7 @@ theorem mergeSingle_ok (env : Env) (he : EnvTotal env) (hF : FromSpecOk env) (hP
                   | true => simp [aspecAnd] at hr
                   | false =>
                     rw [hsa] at na; rw [hsb] at nb
-                    obtain ⟨r', hr', _⟩ := Spec.or_spec sa' sb' na.1 nb.1
+                    obtain ⟨r', hr', _⟩ := Spec.or_spec sa' sb' na.canon nb.canon
                     simp [aspecOr, hr'] at hr
               have hsn : StrName a.name := by
                 have := ha.2
